@@ -1,6 +1,7 @@
 package kv
 
 import (
+	"os"
 	"fmt"
 	"go/types"
 	"sort"
@@ -56,6 +57,8 @@ type Unit struct {
 	smokeOn     bool
 	axioms      []Term
 	factTags    map[int]string
+	wfSeen      map[Term]bool
+	storeDef    map[Term][3]Term // heap constant -> (base, index, value) when defined by a store
 	entryEnv    func() *Env
 	gens        int
 }
@@ -179,6 +182,7 @@ func (u *Unit) heapInit(name, sort string) Term {
 		return t
 	}
 	t := u.D.Const(name+"!0", sort)
+	u.heapWF(t, sort)
 	u.heap0[name] = t
 	u.heapSort[name] = sort
 	return t
@@ -220,7 +224,12 @@ func (s *State) heap(name, sort string) Term {
 	}
 	if s.havocGen > 0 {
 		s.u.heapInit(name, sort)
-		t := s.u.D.Const(fmt.Sprintf("%s!gen%d", name, s.havocGen), sort)
+		cn := fmt.Sprintf("%s!gen%d", name, s.havocGen)
+		_, seen := s.u.D.consts[sanitize(cn)]
+		t := s.u.D.Const(cn, sort)
+		if !seen {
+			s.u.heapWF(t, sort)
+		}
 		return t
 	}
 	return s.u.heapInit(name, sort)
@@ -232,6 +241,12 @@ func (s *State) setHeap(name, sort string, t Term) {
 		// name every heap version: keeps the query text linear in the size of the function
 		c := s.u.D.Fresh(name, sort)
 		s.u.Fact(eq(c, t))
+		if f, args := topArgs(t); f == "store" && len(args) == 3 {
+			if s.u.storeDef == nil {
+				s.u.storeDef = map[Term][3]Term{}
+			}
+			s.u.storeDef[c] = [3]Term{args[0], args[1], args[2]}
+		}
 		t = c
 	}
 	s.heaps[name] = t
@@ -295,3 +310,34 @@ func (u *Unit) axiomTerms() []Term {
 
 var _ = sort.Strings
 var _ = time.Now
+
+// hsel reads a heap version; a read at the (syntactically) same index as the store that defines the
+// version yields the stored value directly (read-over-write), which keeps terms in the shape the
+// quantifier triggers expect.
+func hsel(u *Unit, h Term, idx Term) Term {
+	if os.Getenv("KV_NOHSEL") != "" {
+		return sel(h, idx)
+	}
+	if d, ok := u.storeDef[h]; ok && d[1] == idx {
+		return d[2]
+	}
+	return sel(h, idx)
+}
+
+// heapWF: type invariant of an unconstrained heap version: every slice stored in it is well formed
+// (0 <= len <= cap, ...). Versions obtained by stores of well-formed values inherit it.
+func (u *Unit) heapWF(h Term, sort string) {
+	if os.Getenv("KV_WF") == "" {
+		return // replaced by ground facts at the specification read sites (see Env.sv)
+	}
+	if strings.HasSuffix(sort, " Slice)") && strings.HasPrefix(sort, "(Array Ref ") {
+		u.Fact(fmt.Sprintf("(forall ((r Ref)) (! (wfslice (select %s r)) :pattern ((select %s r))))", h, h))
+	}
+}
+
+// FreshHeap: an unconstrained new version of a heap array.
+func (u *Unit) FreshHeap(name, sort string) Term {
+	t := u.D.Fresh(name, sort)
+	u.heapWF(t, sort)
+	return t
+}
